@@ -246,7 +246,8 @@ def df_group(inp, W):
 @op
 def df_join(inp, W):
     a, b = inp["a"], inp["b"]
-    by = [x if isinstance(x, str) else tuple(x) for x in inp["by"]]
+    pair = list if inp.get("pair_form") == "list" else tuple
+    by = [x if isinstance(x, str) else pair(x) for x in inp["by"]]
     out = getattr(a, inp["kind"])(b, *by)
     return {"out": out, "a": a, "b": b, "alias": _frame_alias(W, out, a, b)}
 
@@ -546,7 +547,8 @@ def lod_op(inp, W):
 def lod_join(inp, W):
     a, b = inp["a"], inp["b"]
     b_before = [dict(x) for x in b]
-    by = [x if isinstance(x, str) else tuple(x) for x in inp["by"]]
+    pair = list if inp.get("pair_form") == "list" else tuple
+    by = [x if isinstance(x, str) else pair(x) for x in inp["by"]]
     out = getattr(a, inp["kind"])(b, *by)
     return {"out": out, "b_after": [dict(x) for x in b], "b_before": b_before,
             "b_obsolete": bool(list.__getattribute__(b, "_obsolete"))}
@@ -1372,7 +1374,7 @@ def file_restrict(inp, W):
     di = W.di
     obj = inp["obj"]; fmt = inp["fmt"]
     kw = {"columns": list(inp["cols"])}
-    dt = {k: {"float": float}[t] for k, t in inp.get("types") or []}
+    dt = {k: {"float": float, "datetime64[us]": "datetime64[us]"}[t] for k, t in inp.get("types") or []}
     if dt: kw["dtypes"] = dt
     name = f"t.{fmt}"
     if W.sym:
